@@ -88,6 +88,14 @@ def structures(ctx):
                                                          or (ln[17:20] == "ARG" and ln[12:16].strip() in ("NH1", "NH2", "NE"))
                                                          or (ln[17:20] == "LYS" and ln[12:16].strip() in ("CE",))))]
     prot.append(("frag-1HPX-A20+25-truncated", C.join(trunc + [C.TER])))
+    # a record repeated 0.02 A away (merged files, stripped alt-loc flags): two atoms, wherever the structure sits
+    dup = []
+    for ln in frag:
+        dup.append(ln)
+        if C.is_atom(ln) and ln[17:20] == "ASP" and ln[12:16].strip() == "OD1" and not any("OD1" in x[12:16] and x is not ln and x[17:20] == "ASP" for x in dup[:-1]):
+            r = pdbio.parse_line(ln)
+            dup.append(pdbio.set_xyz(ln, r.x + 20, r.y, r.z))
+    prot.append(("frag-1HPX-A20+25+near-duplicate", C.join(dup + [C.TER])))
     het = [("1HPX", C.test_pdb_text("1HPX")), ("4DFR-A", "\n".join(ln for ln in C.test_pdb_text("4DFR").splitlines()
                                                               if not (C.is_atom(ln) and ln[21] != "A")) + "\n")]
     # a chain that starts with an aspartate (N+ and the carboxylate are covalently coupled), scored with the optional
@@ -185,6 +193,21 @@ def run(ctx):
                 ctx.nontriv((name, (1, 2, 3), (1, 1, 1), t, "zero-plane"))
                 rels.append(relations.relate("SameHeavy", base, text, rb, mt, T=T, with_bonds=True, with_hyd=True,
                                              meta=dict(meta, clause="a+c")))
+        # sub-Angstrom translations along x (a full 0.1 A period in 0.02 A steps) for the structure with a near-duplicate record
+        if name.endswith("+near-duplicate"):
+            for tx in (20, 40, 60, 80, 100):
+                t = (tx, 0, 0)
+                mt = move_text(text, [1, 2, 3], [1, 1, 1], t)
+                T = lambda v, t=t: tuple(x + y for x, y in zip(v, t))  # noqa
+                rb = runner.run(mt, ["-q"], write=False)
+                ctx.count()
+                meta = {"input": name, "motion": {"p": [1, 2, 3], "s": [1, 1, 1], "t": list(t)}, "pdb": mt, "orig": text}
+                if rb.exc is not None:
+                    ctx.violation(f"moved:exception:{name}", f"moved structure raises {rb.exc!r}", meta)
+                    continue
+                ctx.nontriv((name, (1, 2, 3), (1, 1, 1), t, "fine-x"))
+                rels.append(relations.relate("SameHeavy", base, text, rb, mt, T=T, with_bonds=True, with_hyd=False,
+                                             meta=dict(meta, clause="a")))
     # clause (b): supplied hydrogens
     for si, (name, text) in enumerate(prot):
         htext = c07.with_own_hydrogens(text)
